@@ -19,8 +19,12 @@ tagged with the module of its location, because that is what `group_errors` grou
 
 Rust `HashMap`s are association lists accessed through `lookup` (`insert` = overwrite), Rust
 `HashSet`s are lists read through membership; `ErrorSet` is a `BTreeSet`, so diagnostics are read
-through membership as well.  The only Rust panic sites of these functions are the two `unwrap()`s
-of `rename_module` (157, 166) — `RenameOk` is the predicate "they do not fire".
+through membership as well.  The model follows the code **after** the fix commits baf612a
+(rename_module rebuilds the signature), 71ee3bd (recheck keeps the syntax errors of modules that are
+not re-parsed; per-name syntax errors inside a batch) and f124d3b (ROOT operands are ignored).
+The only Rust panic site left in these functions is `parsed_modules.remove(&old).unwrap()` in
+`rename_module`, guarded by `string_sources.remove(&old)` being `Some`; the two maps are one map
+here, so it cannot fire by construction.
 -/
 namespace SamVerif.Incremental
 
@@ -55,6 +59,8 @@ structure Checker (Mod Content Sig Err : Type) where
   sig : Mod → Content → Sig
   /-- errors pushed by `parse_source_module_from_text` (located in the parsed module) -/
   parseErrs : Content → List Err
+  /-- `matches!(e.detail, ErrorDetail::InvalidSyntax(_))` -/
+  isSyntax : Err → Bool
   /-- errors pushed by `type_check_module(m, &parse(c, m), global_cx)`, each with the module of its
   location -/
   check : Mod → Content → (Mod → Option Sig) → List (Mod × Err)
@@ -135,71 +141,79 @@ def overwrite (errs : List (Mod × List Err)) (produced : List (Mod × Err)) (to
     List (Mod × List Err) :=
   touched.foldl (fun e k => insert e k (groupFor produced k)) errs
 
-/-- `ServerState::recheck(error_set, recheck_set)` (server_state.rs:70-109).  `pending` are the
-errors already in `error_set` (parse errors of the modules parsed by the caller).  The keys of
-`grouped_errors` after the fill-in loop (92-96) are the modules that own a produced error plus the
-whole recheck set; exactly those entries are overwritten. -/
-def recheck (ck : Checker Mod Content Sig Err) (s : State Mod Content Sig Err)
-    (pending : List (Mod × Err)) (R : List Mod) : State Mod Content Sig Err :=
-  let produced := pending ++ checkAll ck s.sources s.globalCx R
-  { s with errors := overwrite s.errors produced (produced.map (·.1) ++ R) }
-
 def tagged (m : Mod) (es : List Err) : List (Mod × Err) := es.map (fun e => (m, e))
 
-/-- Loop body of `update` (server_state.rs:131-140). -/
+/-- The syntax errors the rechecked modules already have (server_state.rs `recheck`, first loop):
+an `errors` entry only holds errors located in its own module. -/
+def retained (ck : Checker Mod Content Sig Err) (s : State Mod Content Sig Err) (R : List Mod) :
+    List (Mod × Err) :=
+  R.flatMap (fun m => tagged m ((getErrors s m).filter ck.isSyntax))
+
+/-- `ServerState::recheck(error_set, recheck_set)`.  `pending` are the errors already in
+`error_set` (syntax errors of the modules parsed by the caller).  The syntax errors of the
+rechecked modules are carried over, the type checker is run on the recheck set, and the entries of
+the modules that own a produced error plus the whole recheck set are overwritten. -/
+def recheck (ck : Checker Mod Content Sig Err) (s : State Mod Content Sig Err)
+    (pending : List (Mod × Err)) (R : List Mod) : State Mod Content Sig Err :=
+  let produced := pending ++ (retained ck s R ++ checkAll ck s.sources s.globalCx R)
+  { s with errors := overwrite s.errors produced (produced.map (·.1) ++ R) }
+
+/-- `updates.into_iter().filter(|(m, _)| *m != ROOT).collect::<HashMap<_, _>>()`: ROOT is not a
+file, the last text of a module in the batch wins. -/
+def writeBatch (root : Mod) (ups : List (Mod × Content)) : List (Mod × Content) :=
+  (ups.filter (fun p => p.1 ≠ root)).foldl (fun acc p => insert acc p.1 p.2) []
+
+/-- Loop body of `update`: drop the stale `errors` entry, parse, rebuild signature, store. -/
 def updateOne (ck : Checker Mod Content Sig Err) (s : State Mod Content Sig Err)
     (p : Mod × Content) : State Mod Content Sig Err :=
-  { s with globalCx := insert s.globalCx p.1 (ck.sig p.1 p.2), sources := insert s.sources p.1 p.2 }
+  { errors := erase s.errors p.1, globalCx := insert s.globalCx p.1 (ck.sig p.1 p.2),
+    sources := insert s.sources p.1 p.2 }
 
-/-- `ServerState::update` (server_state.rs:128-146): the recheck set comes from the **rebuilt**
-dependency graph. -/
+/-- `ServerState::update`: the recheck set comes from the **rebuilt** dependency graph. -/
 def update (ck : Checker Mod Content Sig Err) (s : State Mod Content Sig Err)
     (ups : List (Mod × Content)) : State Mod Content Sig Err :=
-  let s1 := ups.foldl (updateOne ck) s
-  let pending := ups.flatMap (fun p => tagged p.1 (ck.parseErrs p.2))
-  recheck ck s1 pending (affectedSet ck s1.sources (keys ups))
+  let U := writeBatch ck.root ups
+  let s1 := U.foldl (updateOne ck) s
+  let pending := U.flatMap (fun p => tagged p.1 (ck.parseErrs p.2))
+  recheck ck s1 pending (affectedSet ck s1.sources (keys U))
 
-/-- Loop body of `rename_module` (server_state.rs:153-170).  The signature is **moved**, not
-rebuilt (165-166).  If `global_cx` had no entry for `old` the `unwrap()` at 165 would panic: the
-model then leaves `global_cx` alone and `RenameOk` is false. -/
+/-- Loop body of `rename_module`; the second component is `syntax_errors` (by current name).
+The signature is **rebuilt** under the new name (fix baf612a). -/
 def renameOne (ck : Checker Mod Content Sig Err)
-    (acc : State Mod Content Sig Err × List (Mod × Err)) (p : Mod × Mod) :
-    State Mod Content Sig Err × List (Mod × Err) :=
+    (acc : State Mod Content Sig Err × List (Mod × List Err)) (p : Mod × Mod) :
+    State Mod Content Sig Err × List (Mod × List Err) :=
   let s := acc.1
   match lookup s.sources p.1 with
   | none => acc
   | some c =>
-    let gcx := match lookup s.globalCx p.1 with
-      | some sg => insert (erase s.globalCx p.1) p.2 sg
-      | none => s.globalCx
-    ({ s with sources := insert (erase s.sources p.1) p.2 c, globalCx := gcx },
-      acc.2 ++ tagged p.2 (ck.parseErrs c))
+    ({ sources := insert (erase s.sources p.1) p.2 c,
+       globalCx := insert (erase s.globalCx p.1) p.2 (ck.sig p.2 c),
+       errors := erase (erase s.errors p.1) p.2 },
+      insert (erase acc.2 p.1) p.2 (ck.parseErrs c))
 
-/-- "The `unwrap()` of `global_cx.remove(&old)` does not fire" along a batch of renames. -/
-def RenameOk (ck : Checker Mod Content Sig Err) :
-    State Mod Content Sig Err → List (Mod × Mod) → Prop
-  | _, [] => True
-  | s, p :: ps =>
-    ((lookup s.sources p.1).isSome → (lookup s.globalCx p.1).isSome) ∧
-      RenameOk ck (renameOne ck (s, []) p).1 ps
+/-- `renames` without the pairs that mention ROOT. -/
+def renamePairs (root : Mod) (rens : List (Mod × Mod)) : List (Mod × Mod) :=
+  rens.filter (fun p => p.1 ≠ root ∧ p.2 ≠ root)
 
-/-- `ServerState::rename_module` (server_state.rs:148-172): the recheck set comes from the **old**
-dependency graph, dirty set = all old and new names. -/
+/-- `ServerState::rename_module`: the recheck set comes from the **old** dependency graph,
+dirty set = all old and new names. -/
 def rename (ck : Checker Mod Content Sig Err) (s : State Mod Content Sig Err)
     (rens : List (Mod × Mod)) : State Mod Content Sig Err :=
-  let R := affectedSet ck s.sources (rens.flatMap (fun p => [p.1, p.2]))
-  let acc := rens.foldl (renameOne ck) (s, [])
-  recheck ck acc.1 acc.2 R
+  let rs := renamePairs ck.root rens
+  let R := affectedSet ck s.sources (rs.flatMap (fun p => [p.1, p.2]))
+  let acc := rs.foldl (renameOne ck) (s, [])
+  recheck ck acc.1 (acc.2.flatMap (fun p => tagged p.1 p.2)) R
 
-/-- Loop body of `remove` (server_state.rs:176-181). -/
+/-- Loop body of `remove`. -/
 def removeOne (s : State Mod Content Sig Err) (m : Mod) : State Mod Content Sig Err :=
-  { s with sources := erase s.sources m, globalCx := erase s.globalCx m }
+  { sources := erase s.sources m, globalCx := erase s.globalCx m, errors := erase s.errors m }
 
-/-- `ServerState::remove` (server_state.rs:174-183): recheck set from the **old** graph. -/
+/-- `ServerState::remove`: recheck set from the **old** graph; ROOT ignored. -/
 def remove (ck : Checker Mod Content Sig Err) (s : State Mod Content Sig Err) (ms : List Mod) :
     State Mod Content Sig Err :=
-  let R := affectedSet ck s.sources ms
-  recheck ck (ms.foldl removeOne s) [] R
+  let ms' := ms.filter (fun m => m ≠ ck.root)
+  let R := affectedSet ck s.sources ms'
+  recheck ck (ms'.foldl removeOne s) [] R
 
 inductive Op (Mod Content : Type) where
   | update (ups : List (Mod × Content))
@@ -215,12 +229,6 @@ def step (ck : Checker Mod Content Sig Err) (s : State Mod Content Sig Err) :
 def run (ck : Checker Mod Content Sig Err) (ops : List (Op Mod Content))
     (s : State Mod Content Sig Err) : State Mod Content Sig Err :=
   ops.foldl (step ck) s
-
-/-- No `unwrap()` fires in this step. -/
-def StepOk (ck : Checker Mod Content Sig Err) (s : State Mod Content Sig Err) :
-    Op Mod Content → Prop
-  | .rename rens => RenameOk ck s rens
-  | _ => True
 
 /-- `build_global_signature` (global_signature.rs:169-181): one signature per source, then the
 builtin one **inserted over** whatever is under ROOT. -/
@@ -249,14 +257,16 @@ def applyRename (S : Sources Mod Content) (p : Mod × Mod) : Sources Mod Content
   | none => S
   | some c => insert (erase S p.1) p.2 c
 
-/-- File-system view of one operation: write files, move files, delete files. -/
-def applyOp (S : Sources Mod Content) : Op Mod Content → Sources Mod Content
-  | .update ups => ups.foldl (fun S p => insert S p.1 p.2) S
-  | .rename rens => rens.foldl applyRename S
-  | .remove ms => ms.foldl erase S
+/-- File-system view of one operation: write files (last write of a batch wins), move files,
+delete files.  ROOT (the builtin module) is not a file: operations naming it do nothing. -/
+def applyOp (root : Mod) (S : Sources Mod Content) : Op Mod Content → Sources Mod Content
+  | .update ups => (writeBatch root ups).foldl (fun S p => insert S p.1 p.2) S
+  | .rename rens => (renamePairs root rens).foldl applyRename S
+  | .remove ms => (ms.filter (fun m => m ≠ root)).foldl erase S
 
-def applyOps (ops : List (Op Mod Content)) (S : Sources Mod Content) : Sources Mod Content :=
-  ops.foldl applyOp S
+def applyOps (root : Mod) (ops : List (Op Mod Content)) (S : Sources Mod Content) :
+    Sources Mod Content :=
+  ops.foldl (applyOp root) S
 
 end Model
 
